@@ -12,8 +12,8 @@
 EXTENDS Naturals, Sequences, FiniteSets, Json, TLC
 
 TraceLog == ndJsonDeserialize("trace.ndjson")
-VARIABLES l, log, sessions, w, tol, cstart, mem
-tvars == <<l, log, sessions, w, tol, cstart, mem>>
+VARIABLES l, log, sessions, w, tol, cstart, mem, lastOk
+tvars == <<l, log, sessions, w, tol, cstart, mem, lastOk>>
 ASSUME TLCSet(1, 0)
 Rec == TraceLog[l]
 IsEvent(e) == /\ l <= Len(TraceLog) /\ TraceLog[l].ev = e /\ l' = l + 1
@@ -27,34 +27,34 @@ IsSubSeq(a, b) == \* a is a subsequence of b (ids are unique)
     /\ \A i, j \in 1..Len(a) : i < j =>
           (CHOOSE x \in 1..Len(b) : b[x] = a[i]) < (CHOOSE x \in 1..Len(b) : b[x] = a[j])
 
-TraceInit == l = 1 /\ log = <<>> /\ sessions = <<>> /\ w = 0 /\ tol = 0 /\ cstart = 0 /\ mem = <<>>
-TReset == /\ IsEvent("reset") /\ log' = <<>> /\ sessions' = <<>> /\ cstart' = 0 /\ mem' = <<>>
+TraceInit == l = 1 /\ log = <<>> /\ sessions = <<>> /\ w = 0 /\ tol = 0 /\ cstart = 0 /\ mem = <<>> /\ lastOk = FALSE
+TReset == /\ IsEvent("reset") /\ log' = <<>> /\ sessions' = <<>> /\ cstart' = 0 /\ mem' = <<>> /\ lastOk' = FALSE
           /\ w' = (IF "W" \in DOMAIN Rec THEN Rec.W ELSE 0) /\ tol' = (IF "tol" \in DOMAIN Rec THEN Rec.tol ELSE 0)
 
 TAppend == /\ IsEvent("log.append")
            /\ log' = Append(log, [id |-> Rec.id, T |-> SeqToSet(Rec.T), E |-> SeqToSet(Rec.E), at |-> Rec.at])
-           /\ UNCHANGED <<sessions, w, tol, cstart, mem>>
+           /\ UNCHANGED <<sessions, w, tol, cstart, mem, lastOk>>
 
 TPersist == /\ IsEvent("session.persist")
             /\ sessions' = [p \in DOMAIN sessions \cup {Rec.pid} |->
                               IF p = Rec.pid THEN [sid |-> Rec.sid, rooms |-> SeqToSet(Rec.rooms), at |-> Rec.at] ELSE sessions[p]]
             \* on a real server the persisted rooms are exactly the socket's rooms at that moment
             /\ (Rec.sid \in DOMAIN mem => SeqToSet(Rec.rooms) = mem[Rec.sid])
-            /\ UNCHANGED <<log, w, tol, cstart, mem>>
+            /\ UNCHANGED <<log, w, tol, cstart, mem, lastOk>>
 
 \* room membership (hooks of the embedded in-memory adapter)
 MemOf(s) == IF s \in DOMAIN mem THEN mem[s] ELSE {}
 TRoomsAdd == /\ IsEvent("rooms.add")
              /\ mem' = [x \in DOMAIN mem \cup {Rec.sid} |-> IF x = Rec.sid THEN MemOf(Rec.sid) \cup SeqToSet(Rec.rooms) ELSE mem[x]]
-             /\ UNCHANGED <<log, sessions, w, tol, cstart>>
+             /\ UNCHANGED <<log, sessions, w, tol, cstart, lastOk>>
 TRoomsDel == /\ IsEvent("rooms.del")
              /\ mem' = [x \in DOMAIN mem |-> IF x = Rec.sid THEN mem[x] \ {Rec.room} ELSE mem[x]]
-             /\ UNCHANGED <<log, sessions, w, tol, cstart>>
+             /\ UNCHANGED <<log, sessions, w, tol, cstart, lastOk>>
 TRoomsDelAll == /\ IsEvent("rooms.delall")
                 /\ mem' = [x \in DOMAIN mem \ {Rec.sid} |-> mem[x]]
-                /\ UNCHANGED <<log, sessions, w, tol, cstart>>
+                /\ UNCHANGED <<log, sessions, w, tol, cstart, lastOk>>
 
-TCleanStart == IsEvent("clean.start") /\ cstart' = Rec.now /\ UNCHANGED <<log, sessions, w, tol, mem>>
+TCleanStart == IsEvent("clean.start") /\ cstart' = Rec.now /\ UNCHANGED <<log, sessions, w, tol, mem, lastOk>>
 
 \* a clean-up pass [cstart, now]: whatever had not expired by the end of the pass must survive,
 \* nothing is invented, the order is kept
@@ -66,7 +66,7 @@ TCleanEnd ==
     /\ \A p \in DOMAIN sessions : (sessions[p].at + w > Rec.now + tol) => p \in SeqToSet(Rec.pids)
     /\ log' = SelectSeq(log, LAMBDA e : e.id \in SeqToSet(Rec.ids))
     /\ sessions' = [p \in SeqToSet(Rec.pids) |-> sessions[p]]
-    /\ UNCHANGED <<w, tol, cstart, mem>>
+    /\ UNCHANGED <<w, tol, cstart, mem, lastOk>>
 
 IndexOf(id) == IF \E i \in 1..Len(log) : log[i].id = id THEN CHOOSE i \in 1..Len(log) : log[i].id = id ELSE 0
 
@@ -84,12 +84,14 @@ TRestore ==
                                                  LAMBDA e : Match(sessions[Rec.pid].rooms, e.T, e.E)))
          /\ sessions' = IF known /\ ~Rec.ok /\ Rec.why = "expired"
                           THEN [p \in DOMAIN sessions \ {Rec.pid} |-> sessions[p]] ELSE sessions
+    /\ lastOk' = Rec.ok                                    \* the verdict the socket and the client must report
     /\ UNCHANGED <<log, w, tol, cstart, mem>>
 
 \* one client session end to end
 E2EOK(r) ==
     LET rc == r.received IN
-    /\ r.recovered = r.expectRecovered
+    /\ r.recovered = lastOk                                  \* what RestoreSession decided (TRestore checked that decision against the window)
+    /\ (r.expectRecovered /\ r.comfortable) => r.recovered    \* well inside the window with a valid pid and offset: restored
     /\ r.intact                                              \* binary events arrive (also when replayed) with their attachments
     /\ r.clientRecovered = r.recovered                       \* what the client API reports is this connect's verdict
     /\ r.recovered => /\ r.sameSid /\ r.roomsOk
@@ -99,9 +101,9 @@ E2EOK(r) ==
                       /\ (r.strict => SeqToSet(rc) \subseteq SeqToSet(r.addressed))              \* and nothing else
     /\ ~r.recovered => ~r.sameSid
 TE2E == /\ IsEvent("e2e") /\ (IF E2EOK(Rec) THEN TRUE ELSE PrintT(<<"STEP_MISMATCH", l>>))
-        /\ UNCHANGED <<log, sessions, w, tol, cstart, mem>>
+        /\ UNCHANGED <<log, sessions, w, tol, cstart, mem, lastOk>>
 
-TNote == (IsEvent("note") \/ IsEvent("quiesce")) /\ UNCHANGED <<log, sessions, w, tol, cstart, mem>>
+TNote == (IsEvent("note") \/ IsEvent("quiesce")) /\ UNCHANGED <<log, sessions, w, tol, cstart, mem, lastOk>>
 
 TraceNext == TReset \/ TRoomsAdd \/ TRoomsDel \/ TRoomsDelAll \/ TAppend \/ TPersist \/ TCleanStart \/ TCleanEnd \/ TRestore \/ TE2E \/ TNote
 TraceSpec == TraceInit /\ [][TraceNext]_tvars
